@@ -572,6 +572,9 @@ class Tdf:
 
         comment = comment if comment is not None else old_entry.comment
 
+        # make sure the new block can be written before removing the old one
+        self._serialize(newBlock, comment)
+
         self.remove_block(newBlock.type)
         self.add_block(newBlock, comment)
 
